@@ -25,6 +25,8 @@ func c19Alphabet(tier string) []seqSym {
 		sy("SET", "k1", "a", "POINT", "33.000000123", "-115.00000987"),
 		sy("SET", "k1", "b", "POINT", "33.000000123", "-115.00000988"),
 		sy("SET", "k1", "s", "POINT", "32", "-114"), // makes the near-duplicate pair extreme in one axis only
+		sy("SET", "k1", "n", "POINT", "NaN", "1"),
+		sy("SET", "k1", "n", "BOUNDS", "1", "2", "+Inf", "4"),
 		sy("SET", "k1", "a", "STRING", "hello"),
 		sy("SET", "k1", "b", "STRING", `{"x":1}`),
 		sy("SET", "k1", "a", "OBJECT", gEmpty),
